@@ -318,8 +318,18 @@ func runC07(c *Ctx, r *Run) {
 					kp := path(k)
 					return kp == msgPath+".RoundNumber" || kp == msgPath+".From", kp
 				}
-				keys := []ssa.Value{mu.Key}
-				// the inner map was looked up in the round-indexed table: that key too (through the phi of `q`)
+				type qk struct {
+					ok bool
+					kp string
+				}
+				var keys []qk
+				add := func(k ssa.Value) {
+					ok, kp := own(k)
+					keys = append(keys, qk{ok, kp})
+				}
+				add(mu.Key)
+				// the inner map was looked up in the round-indexed table: that key too (through the phi of `q`, or
+				// through a helper of the package that picks the queue for a message)
 				var outer func(v ssa.Value, d int)
 				outer = func(v ssa.Value, d int) {
 					if d > 4 {
@@ -327,17 +337,49 @@ func runC07(c *Ctx, r *Run) {
 					}
 					switch x := resolveLoad(v).(type) {
 					case *ssa.Lookup:
-						keys = append(keys, x.Index)
+						add(x.Index)
 					case *ssa.Phi:
 						for _, e := range x.Edges {
 							outer(e, d+1)
+						}
+					case *ssa.Call:
+						cal := x.Call.StaticCallee()
+						if !isLocalHelper(fn, cal) {
+							return
+						}
+						// which parameter of the helper is the message being filed
+						for j, a := range x.Call.Args {
+							if j >= len(cal.Params) || path(a) != msgPath {
+								continue
+							}
+							pp := path(cal.Params[j])
+							var inner func(v ssa.Value, d int)
+							inner = func(v ssa.Value, d int) {
+								if d > 4 {
+									return
+								}
+								switch y := resolveLoad(v).(type) {
+								case *ssa.Lookup:
+									kp := path(y.Index)
+									keys = append(keys, qk{kp == pp+".RoundNumber" || kp == pp+".From", kp + " (in " + cal.Name() + ")"})
+								case *ssa.Phi:
+									for _, e := range y.Edges {
+										inner(e, d+1)
+									}
+								}
+							}
+							for _, ret := range returnsOf(cal) {
+								if len(ret.Results) > 0 {
+									inner(ret.Results[0], 0)
+								}
+							}
 						}
 					}
 				}
 				outer(mu.Map, 0)
 				for i, k := range keys {
 					n++
-					ok, kp := own(k)
+					ok, kp := k.ok, k.kp
 					r.Check("OB-Q4", fmt.Sprintf("%s|queue key %d of %s", c.FuncName(fn), i, msgPath), c.Pos(mu.Pos()), ok,
 						"the message is filed under its own header field ("+kp+")",
 						"the message "+msgPath+" is filed under "+kp+", not under its own RoundNumber/From: a duplicated, retransmitted or early message is later processed as if it belonged to another round or sender")
